@@ -10,11 +10,13 @@
      ` LOCALE><s>`  setlocale(LC_ALL, NULL) is <s> after the call and was something else before it (every category, per call)
      ` ARR!`        the CONTENTS of the built-in crystal array (entries, names, atoms, counts) differ from before the call
      ` FDS:<a>><b>` the number of open file descriptors (0..63) was a before the call and is b after it (every call, not only the file ops)
+     ` APP!<probe>:<detail>`  a piece of C-library state that the APPLICATION has in progress across the call was disturbed by it (see "hidden
+                    cursors" below): strtok, rand, lrand48, getenv, tm (localtime/gmtime buffer), asctime, tmpnam, strerror, getopt, stdin, stdout, lconv
    errno is carried from the end of one op to the start of the next (what the harness itself does in between — observers, protocol output —
    is invisible to the library, as in an application that makes the calls back to back); a process without history starts with errno = 0.
    Directives in <ops>:
      !state     S <LC_ALL locale string> | <LC_NUMERIC> | <cwd> | <FNV-1a of every data region> | <every locale category> |
-                  <process state: hash of environ, sigaction of eight signals, rounding mode, open descriptors, next rand()/random()> |
+                  <process state: hash of environ, sigaction of eight signals, signal mask, rounding mode, open descriptors, umask> |
                   <observations, NOT compared: errno as the last op left it, floating-point exception flags>
      !snapshot  keep a copy of every data region
      !diff      D <address> <old byte> <new byte>  for the first bytes that differ from the snapshot
@@ -31,6 +33,8 @@
 #include <fcntl.h>
 #include <sys/stat.h>
 #include <sys/wait.h>
+#include <time.h>
+#include <stdio_ext.h>
 #include "xrl_ops.h"
 #include "xrayglob.h"
 
@@ -65,7 +69,7 @@ static void load_regions(const char *path) {
   fclose(f);
 }
 extern char **environ;
-/* process-global state other than locale / cwd / streams: observed without being disturbed (rand(): in a forked child) */
+/* process-global state other than locale / cwd / streams: observed without being disturbed */
 static void process_state(char *out, size_t cap) {
   uint64_t h = 1469598103934665603ULL; int nenv = 0;
   for (char **e = environ; e && *e; e++, nenv++) for (const char *q = *e; ; q++) { h ^= (unsigned char)*q; h *= 1099511628211ULL; if (!*q) break; }
@@ -79,12 +83,90 @@ static void process_state(char *out, size_t cap) {
   int nfd = 0; for (int fd = 0; fd < 1024; fd++) if (fcntl(fd, F_GETFD) != -1) nfd++;
   if (n < cap) n += (size_t)snprintf(out + n, cap - n, " mask=%lx round=%d fds=%d umask=", mask, fegetround(), nfd);
   { mode_t u = umask(0); umask(u); if (n < cap) n += (size_t)snprintf(out + n, cap - n, "%o", (unsigned)u); }
-  int pfd[2]; if (pipe(pfd) == 0) {
-    pid_t p = fork();
-    if (p == 0) { char b[96]; int k = snprintf(b, sizeof b, " rand=%d:%ld:%ld", rand(), random(), lrand48()); if (write(pfd[1], b, (size_t)k) < 0) _exit(1); _exit(0); }
-    close(pfd[1]); char b[96]; ssize_t k = read(pfd[0], b, sizeof b - 1); close(pfd[0]); int st; waitpid(p, &st, 0);
-    if (k > 0 && n < cap) { b[k] = 0; snprintf(out + n, cap - n, "%s", b); }
-  }
+  /* the rand()/random()/lrand48() sequences are probed after EVERY op (app_check below), not here */
+}
+/* ---- hidden cursors of the C library that the APPLICATION has in progress across every library call -------------------------------------------
+   "No call modifies process-global state": the C library keeps positions and result buffers in hidden process-global objects — the strtok
+   position, the rand()/lrand48() sequences, the static buffers behind localtime/gmtime, asctime, tmpnam, strerror(unknown), the string getenv
+   returned, getopt's optind/optarg/optopt/opterr, the positions and buffering modes of stdin/stdout, localeconv().  An application that is in the
+   middle of a tokenisation, a pseudo-random sequence, an option scan, or that holds a pointer one of these functions returned, and then calls
+   the library, must find all of them as it left them.  The harness plays that application: everything is armed once at the start of the history
+   (in `fresh` mode: before the fork, so the child inherits the armed state), after EVERY op the next element of every sequence is taken and compared
+   with what an undisturbed C library yields, buffers are compared with their snapshots; a sequence that is exhausted (or was disturbed) is re-armed.
+   The violation is the op after which the application's sequence was disturbed: ` APP!<probe>:<detail>` is appended to its result. */
+static const char TOK_TEXT[] = "alpha beta gamma delta epsilon zeta eta theta iota kappa lambda mu nu xi omicron pi rho sigma tau upsilon";
+#define NTOK 20
+static char tok_buf[sizeof TOK_TEXT]; static int tok_off[NTOK], tok_len[NTOK], tok_next;
+static void tok_arm(void) { memcpy(tok_buf, TOK_TEXT, sizeof TOK_TEXT); char *p = strtok(tok_buf, " "); tok_next = (p == tok_buf) ? 1 : -1; }
+#define NSEQ 48
+static int rand_exp[NSEQ], seq_k; static long lr_exp[NSEQ];
+static void seq_arm(void) {
+  srand(20240928u); for (int i = 0; i < NSEQ; i++) rand_exp[i] = rand(); srand(20240928u);
+  srand48(16092028L); for (int i = 0; i < NSEQ; i++) lr_exp[i] = lrand48(); srand48(16092028L); seq_k = 0;
+}
+static const char *env_p; static char env_snap[64];
+static struct tm *tm_p; static struct tm tm_snap; static char *asc_p, asc_snap[64], *tmpnam_p, tmpnam_snap[L_tmpnam + 1], *serr_p, serr_snap[128];
+static int opt_snap[3]; static char *optarg_snap; static long stdin_pos; static off_t stdin_off; static size_t out_bufsize; static int out_lbf;
+static char lconv_snap[16];
+static void app_arm(void) {
+  int k = 0; tok_off[0] = 0;
+  for (int i = 0; ; i++) { if (TOK_TEXT[i] == ' ' || !TOK_TEXT[i]) { tok_len[k] = i - tok_off[k]; k++; if (!TOK_TEXT[i] || k == NTOK) break; tok_off[k] = i + 1; } }
+  tok_arm(); seq_arm();
+  setenv("XRL_VERIF_APP", "value-the-application-holds-a-pointer-to", 1); env_p = getenv("XRL_VERIF_APP"); snprintf(env_snap, sizeof env_snap, "%s", env_p ? env_p : "");
+  time_t t0 = 86400L * 366 + 3723; tm_p = localtime(&t0); if (tm_p) tm_snap = *tm_p;
+  asc_p = tm_p ? asctime(tm_p) : NULL; snprintf(asc_snap, sizeof asc_snap, "%s", asc_p ? asc_p : "");
+  tmpnam_p = tmpnam(NULL); snprintf(tmpnam_snap, sizeof tmpnam_snap, "%s", tmpnam_p ? tmpnam_p : "");
+  serr_p = strerror(123456); snprintf(serr_snap, sizeof serr_snap, "%s", serr_p ? serr_p : "");
+  opt_snap[0] = optind; opt_snap[1] = opterr; opt_snap[2] = optopt; optarg_snap = optarg;
+  /* standard input: a scratch file of which the application has read the first line (so the stream holds a buffer and a position) */
+  FILE *tf = tmpfile();
+  if (tf) { for (int i = 0; i < 64; i++) fprintf(tf, "line %d of the application's standard input\n", i); fflush(tf); lseek(fileno(tf), 0, SEEK_SET); dup2(fileno(tf), 0);
+            char l[128]; if (!fgets(l, sizeof l, stdin)) l[0] = 0; }
+  stdin_pos = ftell(stdin); stdin_off = lseek(0, 0, SEEK_CUR);
+  { static char app_outbuf[1024]; setvbuf(stdout, app_outbuf, _IOFBF, sizeof app_outbuf); }   /* the application gave stdout a buffer of its own (nothing has been written yet) */
+  out_bufsize = __fbufsize(stdout); out_lbf = __flbf(stdout);
+  struct lconv *lc = localeconv(); snprintf(lconv_snap, sizeof lconv_snap, "%s|%s", lc->decimal_point, lc->thousands_sep);
+}
+static void app_mark(char *out, size_t cap, const char *fmt, ...) {
+  size_t n = strlen(out); if (n + 8 >= cap) return;
+  va_list ap; va_start(ap, fmt); vsnprintf(out + n, cap - n, fmt, ap); va_end(ap);
+  for (char *q = out + n + 1; *q; q++) if (*q == ' ' || *q == '\n') *q = '_';
+}
+static void app_check(char *out, size_t cap) {
+  /* strtok: the next token of the application's own tokenisation */
+  { char *p = strtok(NULL, " "); int want = tok_next;
+    const char *exp = (want >= 0 && want < NTOK) ? tok_buf + tok_off[want] : NULL;
+    int ok = (p == exp) && (p == NULL || (strlen(p) == (size_t)tok_len[want] && !memcmp(p, TOK_TEXT + tok_off[want], (size_t)tok_len[want])));
+    if (!ok) {
+      char got[96];
+      if (!p) snprintf(got, sizeof got, "NULL");
+      else if (p >= tok_buf && p < tok_buf + sizeof tok_buf) snprintf(got, sizeof got, "\"%.20s\"@%d", p, (int)(p - tok_buf));
+      else snprintf(got, sizeof got, "a-pointer-outside-the-application's-buffer");
+      if (exp) app_mark(out, cap, " APP!strtok:next-token-should-be-\"%.*s\"@%d-of-the-application's-buffer,got-%s", tok_len[want], TOK_TEXT + tok_off[want], tok_off[want], got);
+      else app_mark(out, cap, " APP!strtok:tokenisation-should-be-exhausted(NULL),got-%s", got);
+      tok_arm();
+    } else if (p == NULL || ++tok_next == NTOK) tok_arm(); }      /* the last token was just taken: start over at once, so that a tokenisation is LIVE across every call */
+  /* rand() / lrand48(): the next element of the application's pseudo-random sequences */
+  { int r = rand(); long l = lrand48(); int bad = 0;
+    if (r != rand_exp[seq_k]) { app_mark(out, cap, " APP!rand:element-%d-of-the-sequence-after-srand-should-be-%d,got-%d", seq_k, rand_exp[seq_k], r); bad = 1; }
+    if (l != lr_exp[seq_k]) { app_mark(out, cap, " APP!lrand48:element-%d-of-the-sequence-after-srand48-should-be-%ld,got-%ld", seq_k, lr_exp[seq_k], l); bad = 1; }
+    if (bad || ++seq_k == NSEQ) seq_arm(); }
+  /* results of getenv / localtime / asctime / tmpnam / strerror the application still holds */
+  { const char *e = getenv("XRL_VERIF_APP");
+    if (e != env_p || !e || strcmp(e, env_snap)) { app_mark(out, cap, " APP!getenv:the-string-getenv-returned-%s", e != env_p ? "moved" : "changed"); env_p = e; snprintf(env_snap, sizeof env_snap, "%s", e ? e : ""); } }
+  if (tm_p && memcmp(tm_p, &tm_snap, sizeof tm_snap)) { app_mark(out, cap, " APP!tm:the-struct-tm-localtime-returned-was-overwritten"); tm_snap = *tm_p; }
+  if (asc_p && strcmp(asc_p, asc_snap)) { app_mark(out, cap, " APP!asctime:static-buffer-overwritten"); snprintf(asc_snap, sizeof asc_snap, "%s", asc_p); }
+  if (tmpnam_p && strcmp(tmpnam_p, tmpnam_snap)) { app_mark(out, cap, " APP!tmpnam:static-buffer-overwritten"); snprintf(tmpnam_snap, sizeof tmpnam_snap, "%s", tmpnam_p); }
+  if (serr_p && strcmp(serr_p, serr_snap)) { app_mark(out, cap, " APP!strerror:buffer-overwritten"); snprintf(serr_snap, sizeof serr_snap, "%s", serr_p); }
+  if (optind != opt_snap[0] || opterr != opt_snap[1] || optopt != opt_snap[2] || optarg != optarg_snap) {
+    app_mark(out, cap, " APP!getopt:optind/opterr/optopt-%d/%d/%d->%d/%d/%d%s", opt_snap[0], opt_snap[1], opt_snap[2], optind, opterr, optopt, optarg != optarg_snap ? ",optarg-changed" : "");
+    opt_snap[0] = optind; opt_snap[1] = opterr; opt_snap[2] = optopt; optarg_snap = optarg; }
+  { long p = ftell(stdin); off_t f = lseek(0, 0, SEEK_CUR);
+    if (p != stdin_pos || f != stdin_off) { app_mark(out, cap, " APP!stdin:position-%ld(fd-%ld)->%ld(fd-%ld)", stdin_pos, (long)stdin_off, p, (long)f); stdin_pos = p; stdin_off = f; } }
+  { size_t b = __fbufsize(stdout); int lb = __flbf(stdout);
+    if (b != out_bufsize || lb != out_lbf) { app_mark(out, cap, " APP!stdout:buffering-%zu/%d->%zu/%d", out_bufsize, out_lbf, b, lb); out_bufsize = b; out_lbf = lb; } }
+  { struct lconv *lc = localeconv(); char now[16]; snprintf(now, sizeof now, "%s|%s", lc->decimal_point, lc->thousands_sep);
+    if (strcmp(now, lconv_snap)) { app_mark(out, cap, " APP!lconv:decimal_point|thousands_sep-%s->%s", lconv_snap, now); snprintf(lconv_snap, sizeof lconv_snap, "%s", now); } }
 }
 static int errno_carry = 0;          /* errno as the last op left it */
 static int count_fds(int upto) { int n = 0; for (int fd = 0; fd < upto; fd++) if (fcntl(fd, F_GETFD) != -1) n++; return n; }
@@ -130,6 +212,7 @@ int main(int argc, char **argv) {
   char *tok[64]; retained *keep = NULL; int idx = 0;
   { int pfd = dup(1); proto = fdopen(pfd, "w"); setvbuf(proto, NULL, _IOLBF, 0);
     FILE *tf = tmpfile(); if (tf) { dup2(fileno(tf), 1); stdout_seen = 0; } }
+  app_arm();                              /* the application's tokenisation / sequences / held buffers start here, before any library call */
   observers_reset();
   while (fgets(line, sizeof line, f)) {
     size_t L = strlen(line); while (L && (line[L - 1] == '\n' || line[L - 1] == '\r')) line[--L] = 0;
@@ -150,7 +233,7 @@ int main(int argc, char **argv) {
       if (p == 0) { stdout_seen = lseek(1, 0, SEEK_CUR);      /* fd 1 shares its offset with the siblings: count from where THIS child starts */
                     errno = 0;                                /* a process without history */
                     int ok = xrl_op(&o, tok, nt, NULL); errno_carry = errno; long sd = stray_stdout(); if (sd) { char x[48]; snprintf(x, sizeof x, " STDOUT+%ld", sd); strncat(out, x, sizeof out - strlen(out) - 1); }
-                    observers_after(out, sizeof out);
+                    observers_after(out, sizeof out); app_check(out, sizeof out);
                     printf("R %d %s\n", idx, ok ? out : "bad-op"); fflush(proto); _exit(0); }
       int st; waitpid(p, &st, 0);
       if (!WIFEXITED(st) || WEXITSTATUS(st) != 0) printf("R %d died %d\n", idx, st);
@@ -158,7 +241,7 @@ int main(int argc, char **argv) {
       printf("B %d\n", idx);               /* begin marker: a crash is attributed to this op */
       errno = errno_carry;
       int ok = xrl_op(&o, tok, nt, &keep); errno_carry = errno; long sd = stray_stdout(); if (sd) { char x[48]; snprintf(x, sizeof x, " STDOUT+%ld", sd); strncat(out, x, sizeof out - strlen(out) - 1); }
-      observers_after(out, sizeof out);
+      observers_after(out, sizeof out); app_check(out, sizeof out);
       printf("R %d %s\n", idx, ok ? out : "bad-op");
     }
     idx++;
